@@ -22,13 +22,20 @@ def mc_stage(tier):
     mod2 = os.path.join(core.SPEC, 'MC_HoneyWalk.tla')
     cfg2 = os.path.join(core.SPEC, 'MC_HoneyWalk.cfg' if tier == 'quick' else 'MC_HoneyWalk_thorough.cfg')
     r2 = core.tlc_must_pass(mod2, cfg2, 'HoneyWalk', timeout=3000)
+    # the session loop: ends for every ruleset with FixEmpty (tree after fix 366e378), and must NOT end for the pinned loop
+    r3 = core.tlc_must_pass(os.path.join(core.SPEC, 'HoneySession.tla'), os.path.join(core.SPEC, 'MC_HoneySession.cfg'), 'HoneySession', timeout=600)
+    r4 = core.tlc(os.path.join(core.SPEC, 'HoneySession.tla'), os.path.join(core.SPEC, 'MC_HoneySession_pinned.cfg'), timeout=600)
+    if not r4.violated:
+        raise core.MachineryError('HoneySession.tla: the pinned loop (FixEmpty = FALSE) should violate Terminates')
+    session_mc = {'cfg': 'MC_HoneySession.cfg', 'states': r3.distinct, 'properties': ['Terminates', 'ExactlyN', 'NeverMore'],
+                  'pinned_loop_violates': r4.violated}
     # symbolic strengthening (Apalache / SMT): the same invariant for every list of <= 8 entries with ARBITRARY integer masses,
     # denominator and resolution; an 'Error' outcome is a counterexample on the model
     apa = [core.apalache(os.path.join(core.SPEC, 'HoneyApa.tla'), inv) for inv in ('WalkIsOwnerA', 'OwnerUniqueA')]
     for a in apa:
         if a['outcome'] == 'Error':
             raise core.MachineryError('Apalache found a counterexample to %s on HoneyApa.tla (model-level)' % a.get('invariant'))
-    return {'apalache': apa, 'cfg': os.path.basename(cfg), 'states': r.distinct + r2.distinct, 'transitions': r.generated + r2.generated,
+    return {'apalache': apa, 'session_loop': session_mc, 'cfg': os.path.basename(cfg), 'states': r.distinct + r2.distinct, 'transitions': r.generated + r2.generated,
             'wall_s': round(r.wall + r2.wall, 1),
             'HoneyWalk': {'cfg': os.path.basename(cfg2), 'states': r2.distinct, 'transitions': r2.generated}}
 
@@ -254,7 +261,7 @@ def main(pid, tier, seed):
                 tid += 1
                 wtraces.append({'tid': tid, 'kind': 'run', 'n': N, 'lines': [I(x) for x in outs[0]],
                                 'lines2': [I(x) for x in (outs[1] if mode == 'random_walk' else outs[0])],
-                                'inlang': [x in lang for x in outs[0]], 'markov': [False for x in outs[0]]})
+                                'inlang': [x in lang for x in outs[0]], 'markov': [False for x in outs[0]], 'ended': True})
                 meta[tid] = {'mode': mode, 'N': N, 'got': len(outs[0]), 'ruleset': desc['base'], 'via': 'HoneywordSession.run'}
     # command line
     rcopy = core.repo_copy('cli')
@@ -279,8 +286,25 @@ def main(pid, tier, seed):
         tid += 1
         wtraces.append({'tid': tid, 'kind': 'run', 'n': N, 'lines': [I(x) for x in outs[0]],
                         'lines2': [I(x) for x in (outs[1] if mode == 'random_walk' else outs[0])],
-                        'inlang': [True for x in outs[0]], 'markov': [False for x in outs[0]]})
+                        'inlang': [True for x in outs[0]], 'markov': [False for x in outs[0]], 'ended': True})
         meta[tid] = {'mode': mode, 'N': N, 'got': len(outs[0]), 'ruleset': desc['base'], 'via': 'pcfg_guesser.py subprocess'}
+    # a ruleset whose ONLY base structure is the Markov one (what the trainer writes for coverage 0): nothing can be drawn,
+    # the session must end (HoneySession.tla: Terminates); --limit N then yields no word
+    monly = os.path.join(work, 'monly')
+    rulesets.write_ruleset(monly, {'D1': [('1', 1.0)]}, [('M', 1.0)], omen_prob=[(1, 0.5), (2, 0.25)], omen_keyspace=[(1, 3), (2, 3)])
+    os.symlink(monly, os.path.join(rcopy, 'Rules', 'monly'))
+
+    def run_monly(mode):
+        out, err, code = session.cli(rcopy, 'pcfg_guesser.py', ['-r', 'monly', '-m', mode, '-n', '3'], stdin='open', timeout=20,
+                                     on_timeout='return')
+        return mode, session.stdout_lines(out), code
+    with ThreadPoolExecutor(2) as ex:
+        for mode, lines_, code in ex.map(run_monly, ('honeywords', 'random_walk')):
+            tid += 1
+            wtraces.append({'tid': tid, 'kind': 'run', 'n': 0, 'lines': [1 for _ in lines_], 'lines2': [1 for _ in lines_],
+                            'inlang': [False for _ in lines_], 'markov': [True for _ in lines_], 'ended': code is not None})
+            meta[tid] = {'mode': mode, 'N': 3, 'got': len(lines_), 'ruleset': [['M', 1.0]], 'via': 'pcfg_guesser.py subprocess',
+                         'check': 'Markov-only ruleset', 'ended_within_20_s': code is not None}
 
     v1, st1 = core.validate_traces('TrHoney.tla', wtraces, chunk=400, timeout=600)
     upfile = os.path.join(core.scratch('up'), 'up.json')
